@@ -78,7 +78,14 @@ def op_strategy(depth=2):
             T("save_state", t[0]), T("set_pivot", list(t[1])), T("save_state", t[0])]
             + ([T("set_pivot", list(t[2]))] if t[5] else [T("translate", *t[2])])
             + [T("restore_state", t[0]), T("rotate", t[3], t[4])]})
-    state = hist.weighted((8, state), (1, st.just({"op": "other", "args": []})), (1, resave))
+    # a named restore, an anonymous pop to another transform, the same named
+    # restore again: "already in effect" shortcuts must notice the pop
+    again = st.tuples(nm, st.tuples(c, c, c)).map(
+        lambda t: {"op": "macro", "ops": [
+            T("save_state", t[0]), T("translate", *t[1]), T("save_state"),
+            T("restore_state", t[0]), T("restore_state"), T("restore_state", t[0])]})
+    state = hist.weighted((8, state), (1, st.just({"op": "other", "args": []})), (1, resave),
+                          (1, again))
     if depth <= 0:
         return hist.weighted((1, geo), (1, state))
     inner = op_strategy(depth - 1)
